@@ -2,6 +2,7 @@
 //!
 //! usage: mon <PROP> --tier quick|thorough --seed N --shard I --nshards N --out FILE [--only CASE]
 
+#![allow(dead_code)]
 mod core;
 mod hooks;
 mod props;
@@ -67,7 +68,26 @@ fn main() {
     } else {
         let t0 = std::time::Instant::now();
         match prop.as_str() {
+            "C01" => props::c01::run(&mut ctx),
+            "C02" => props::c02::run(&mut ctx),
+            "C03" => props::c03::run(&mut ctx),
+            "C04" => props::c04::run(&mut ctx),
+            "C05" => props::c05::run(&mut ctx),
+            "C06" => props::c06::run(&mut ctx),
+            "C07" => props::c07::run(&mut ctx),
+            "C08" => props::c08::run(&mut ctx),
+            "C09" => props::c09::run(&mut ctx),
+            "C10" => props::c10::run(&mut ctx),
+            "C11" => props::c11::run(&mut ctx),
+            "C12" => props::c12::run(&mut ctx),
+            "C13" => props::c13::run(&mut ctx),
             "C14" => props::c14::run(&mut ctx),
+            "C15" => props::c15::run(&mut ctx),
+            "C16" => props::c16::run(&mut ctx),
+            "C17" => props::c17::run(&mut ctx),
+            "C18" => props::c18::run(&mut ctx),
+            "C19" => props::c19::run(&mut ctx),
+            "ZOO" => zoo::warm(),
             _ => {
                 eprintln!("unknown property {prop}");
                 std::process::exit(2);
